@@ -1,25 +1,25 @@
 #!/bin/bash
-# r7_process.sh <outdir e.g. /tmp/seedout7> [vcheck-bin] — round 7 delivers every refactoring twice: with the regression
+# pair_process.sh <outdir> [vcheck-bin] [seed-prefix R7] [clean-prefix F7] — round 7 delivers every refactoring twice: with the regression
 # (patch.diff + demo) and without (clean.diff). Confirms both halves on scratch copies, imports the seed as
-# seeded/R7-<id>-<X> and the clean half as equiv-candidate <outdir>/clean/F7-<id>-<X>.patch, then runs all checks with
+# seeded/${RP}-<id>-<X> and the clean half as equiv-candidate <outdir>/clean/${FP}-<id>-<X>.patch, then runs all checks with
 # the given (frozen) binary on both and prints, per pair: seed verdict, clean verdict.
-out=$1; bin=${2:-/verif/bin/vcheck}
+out=$1; bin=${2:-/verif/bin/vcheck}; RP=${3:-R7}; FP=${4:-F7}
 export GOFLAGS=-mod=mod GOPROXY=off
 mkdir -p $out/clean
 props=$(python3 -c "import json;print(' '.join(c['property_id'] for c in json.load(open('/verif/MANIFEST.json'))['checks']))")
 for d in $out/C*/[AB]; do
   [ -s $d/patch.diff ] || continue
   x=$(basename $d); id=$(basename $(dirname $d))
-  [ -d /verif/seeded/R7-$id-$x ] || /verif/tools/verify_seed.sh $d R7-$id-$x
-  if [ -s $d/clean.diff ] && [ ! -s $out/clean/F7-$id-$x.patch ]; then
+  [ -d /verif/seeded/${RP}-$id-$x ] || /verif/tools/verify_seed.sh $d ${RP}-$id-$x
+  if [ -s $d/clean.diff ] && [ ! -s $out/clean/${FP}-$id-$x.patch ]; then
     t=$(mktemp -d /tmp/r7c.XXXXXX); cp /repo/*.go /repo/go.mod /repo/go.sum $t/
     if (cd $t && patch -p1 -s --no-backup-if-mismatch < $d/clean.diff >/dev/null 2>&1); then
       s=$(cd $t && go test -count=1 . 2>&1 | tail -1)
       cp $d/demo_test.go $t/zz_demo_test.go
       tn=$(python3 -c "import json;print(json.load(open('$d/meta.json')).get('demo_test_name',''))")
       dm=$(cd $t && go test -count=1 -run "^${tn}\$" . 2>&1 | tail -1)
-      case "$s$dm" in ok*ok*) cp $d/clean.diff $out/clean/F7-$id-$x.patch; echo "F7-$id-$x clean half confirmed (suite ok, demo ok)";; *) echo "F7-$id-$x CLEAN-REJECTED suite=[$s] demo=[$dm]";; esac
-    else echo "F7-$id-$x CLEAN-PATCH-FAILED"; fi
+      case "$s$dm" in ok*ok*) cp $d/clean.diff $out/clean/${FP}-$id-$x.patch; echo "${FP}-$id-$x clean half confirmed (suite ok, demo ok)";; *) echo "${FP}-$id-$x CLEAN-REJECTED suite=[$s] demo=[$dm]";; esac
+    else echo "${FP}-$id-$x CLEAN-PATCH-FAILED"; fi
     rm -rf $t
   fi
 done
@@ -35,5 +35,5 @@ run_one() {
   echo "$line"; cat /tmp/r7_detail_$name.txt 2>/dev/null; rm -f /tmp/r7_detail_$name.txt; rm -rf $d
 }
 export -f run_one
-{ for s in $(ls /verif/seeded | grep '^R7-'); do echo "/verif/seeded/$s/patch.diff SEED-$s"; done
-  for f in $out/clean/F7-*.patch; do [ -s $f ] && echo "$f CLEAN-$(basename $f .patch)"; done; } | xargs -P 12 -L 1 bash -c 'run_one $0 $1 '"$bin $props"
+{ for s in $(ls /verif/seeded | grep "^${RP}-"); do echo "/verif/seeded/$s/patch.diff SEED-$s"; done
+  for f in $out/clean/${FP}-*.patch; do [ -s $f ] && echo "$f CLEAN-$(basename $f .patch)"; done; } | xargs -P 12 -L 1 bash -c 'run_one $0 $1 '"$bin $props"
